@@ -102,6 +102,19 @@ def bk(s):
     return re.sub(r"BACKEND::(?:[A-Za-z0-9_]+::)*([A-Za-z0-9_]+)", r"BACKEND::\1", s)
 
 
+def _item_users(crate, item):
+    """known functions on whose behalf the const / static `item` is read"""
+    users = set()
+    for name, b in crate.bodies.items():
+        if "hir" not in b or name == item or common.is_test_fn(name):
+            continue
+        for n in common.hir_walk(b["hir"]):
+            if n.get("k") == "Path" and n.get("res") == "def" and bk(facts.norm_path(n.get("def") or "")) == bk(item):
+                users |= common.known_owners(crate, name.split("::{closure")[0])
+                break
+    return users
+
+
 def same(ctx, rep):
     a, b = ctx.crate("K1"), ctx.crate("K2")
 
@@ -130,6 +143,9 @@ def same(ctx, rep):
             nested = [b_ for b_ in BOUNDARY if fn.startswith(b_ + "::")]
             if nested:
                 owners = set(nested)        # an item declared inside a boundary function (a table, an inner fn) is part of it
+            elif (a0.bodies.get(fn) or {}).get("dk", "").startswith(("Static", "Const", "AssocConst")):
+                # a table: it belongs to the functions that read it
+                owners = _item_users(a0, fn) | _item_users(b0, fn)
             if owners <= set(BOUNDARY):
                 rep.ob("C16.same", "K1=K2|" + fn + "|moved-boundary-code", True, "new helper differing between the back ends is reached only from the boundary function %s" % sorted(owners))
                 continue
@@ -141,6 +157,10 @@ def same(ctx, rep):
     only_b = sorted(k for k in b.bodies if k not in a.bodies and "hir" in b.bodies[k] and "{closure" not in k and not common.is_test_fn(k))
     allowed_b = ("key_pair::KeyPair::generate_rsa", "key_pair::RsaKeySize", "<key_pair::RsaKeySize", "ring_like::ecdsa_from_private_key_der", "sign_algo::algo::PKCS_ECDSA_P521_SHA512", "oid::EC_SECP_521_R1")
     extra_b = [k for k in only_b if not k.startswith(allowed_b)]
+    # a helper that exists only under aws-lc-rs and is reached only from boundary functions is moved boundary code
+    import c10 as _c10
+    Gb_, _ = _c10.call_graph(b0)
+    extra_b = [k for k in extra_b if not (k not in known_fns(b0.name) and common.known_owners(b0, k) <= set(BOUNDARY) | set(x for x in only_b if x.startswith(allowed_b)))]
     rep.ob("C16.same", "K1=K2|only-in-ring", not only_a, "no function exists only in the ring build", found=only_a)
     rep.ob("C16.same", "K1=K2|only-in-aws", not extra_b, "functions that exist only under aws-lc-rs are the audited additions (RSA generation, P-521, SEC1 loader)", found=extra_b)
     # abstract TLV trees of the to-be-signed writers
@@ -156,7 +176,25 @@ def same(ctx, rep):
         # crypto-less: remove the two excluded alternatives from the crypto tree and compare
         import difflib
         d = [x for x in difflib.unified_diff(ta, tc, lineterm="", n=0) if x[:1] in "+-" and not x.startswith(("+++", "---"))]
-        ok = all(("digest" in x or "KeyIdMethod::derive" in x or "some(self.serial_number)" in x or "is PreSpecified" in x or "issuer.key_identifier_method" in x) for x in d)
+        def _allowed(d_):
+            # the automatic-serial alternative (everything written under `IF !some(self.serial_number)`, whatever the
+            # spelling of the digest prefix) and the hash-derived key-identifier arm
+            ok_, block_indent = True, None
+            for x in d_:
+                body = x[1:]
+                ind = len(body) - len(body.lstrip())
+                if block_indent is not None and x[0] == "-" and ind > block_indent:
+                    continue
+                block_indent = None
+                if "some(self.serial_number)" in x:
+                    if x[0] == "-" and "!some(self.serial_number)" in x:
+                        block_indent = ind
+                    continue
+                if "digest" in x or "KeyIdMethod::derive" in x or "is PreSpecified" in x or "issuer.key_identifier_method" in x:
+                    continue
+                ok_ = False
+            return ok_
+        ok = _allowed(d)
         rep.ob("C16.same", "K1=K3|tbs-tree|" + fn, ok, "the crypto-less build writes the same structure except the automatic-serial alternative and the hash-derived key-identifier arm", found=d[:8])
     rep.sample({"rule": "C16.same", "compared": n, "boundary": sorted(BOUNDARY)})
 
